@@ -8,4 +8,5 @@ mod c19;
 mod gen_c02;
 mod c02;
 pub mod c01;
-mod c03;
+pub mod c03;
+mod gen_c03;
